@@ -893,6 +893,15 @@ func (s *skel) floatConst(name, lean string) {
 	s.facts = append(s.facts, fact{Name: s.pi.pkg.Name() + "." + name, Kind: "const", Pos: relline(o.Pos()), Lean: "S2.Generated." + s.ns + "." + lean, Sha256: sha(o.Val().ExactString())})
 }
 
+// floatConstOpt is floatConst for a constant that an older tree may not have: nothing is emitted then.
+func (s *skel) floatConstOpt(name, lean string) {
+	if _, ok := s.pi.pkg.Scope().Lookup(name).(*types.Const); !ok {
+		fmt.Fprintf(s.out, "-- constant `%s` not found in package %s: no definition `%s`\n\n", name, s.pi.pkg.Name(), lean)
+		return
+	}
+	s.floatConst(name, lean)
+}
+
 // callArgConst emits the float64 bit pattern of the (constant) first argument of the unique call of method `sel`
 // inside function `key` (the margin of Cell.ContainsPoint); a non-constant argument or a second call is fatal.
 func (s *skel) callArgConst(key, sel, lean string) {
@@ -927,6 +936,11 @@ func genCell(ld *loader, facts *[]fact, files map[string]string) {
 	s.out.WriteString(cellPrelude)
 	s.floatConst("dblEpsilon", "dblEpsilon_bits")
 	s.callArgConst("Cell.ContainsPoint", "ExpandedByMargin", "ContainsPoint_margin_bits")
+	// the margin of the tangential tests of uEdgeIsClosest / vEdgeIsClosest (repair D58) and the constant it is built from;
+	// a tree without the margin constant gets no definition here, so that the tie `tie_edgeIsClosestMargin` (and the ties
+	// of the two functions) stop building instead of the whole translator failing
+	s.floatConst("dblError", "dblError_bits")
+	s.floatConstOpt("edgeIsClosestMargin", "edgeIsClosestMargin_bits")
 	for _, k := range []string{"edgeDistance", "Cell.vertexChordDist2", "Cell.uEdgeIsClosest", "Cell.vEdgeIsClosest", "Cell.distanceInternal",
 		"Cell.ContainsPoint", "Cell.Distance", "Cell.BoundaryDistance"} {
 		s.extract(k, strings.TrimPrefix(k, "Cell."))
